@@ -17,6 +17,7 @@ import (
 	"os/signal"
 	"path/filepath"
 	"reflect"
+	"runtime/debug"
 	"sort"
 	"strconv"
 	"strings"
@@ -186,6 +187,7 @@ func TestChild(t *testing.T) {
 	if cfg == "" || outPath == "" {
 		t.Skip("not a child")
 	}
+	debug.SetMaxStack(64 << 20)
 	var keys []string
 	json.Unmarshal([]byte(os.Getenv("X08_CHILD_KEYS")), &keys)
 	rep := &childReport{}
@@ -324,6 +326,11 @@ func runLoad(it Item, keys []string, dir string) (out LoadOut) {
 	}
 	if rep.Code == 0 {
 		out.Infra = "maddy returned 0 without READY:\n" + tail(log.String())
+		return
+	}
+	if strings.Contains(rep.Msg, "listen ") || strings.Contains(rep.Msg, "bind:") || strings.Contains(rep.Msg, "too many open files") {
+		// the environment refused a socket: says nothing about the configuration
+		out.Infra = "maddy could not listen: " + rep.Msg
 		return
 	}
 	out.Err.Is = true
